@@ -633,6 +633,19 @@ pub fn run(tier: Tier) -> i32 {
             let (case, _) = crate::gen::make_case(&l, &cfg, &mut sp, &crate::gen::Overrides::default(), 0);
             big.push(case);
         }
+        // … and through one and the same buffer: the body handed back by the previous validation is overwritten in place
+        // with the next request's body and handed in again
+        for j in 1..m {
+            if let Some(o) = crate::exec::execute_second_in_the_same_buffer(&big[j - 1], &big[j]) {
+                t.eval();
+                let alone = execute(&big[j]).outcome.digest();
+                if o.digest() != alone {
+                    viol(&mut t, "reused-buffer", format!("a {}-byte body written into the buffer the previous validation handed back: {} — in a buffer of its own: {}", len, crate::run::truncate(&o.digest(), 200), crate::run::truncate(&alone, 200)), Some(&big[j]));
+                    break;
+                }
+                t.count("bodies_validated_in_a_reused_buffer_agree");
+            }
+        }
         let forward: Vec<String> = big.iter().map(digest_of).collect();
         let mut backward: Vec<String> = big.iter().rev().map(digest_of).collect();
         backward.reverse();
@@ -810,6 +823,7 @@ pub fn run(tier: Tier) -> i32 {
     ctx.gate("requests on a window bound accepted alike with an immediate provider and one that takes 1.1 s", t.get("window_edge_requests_accepted_with_slow_and_fast_provider"), tier.n(12, 48));
     ctx.gate("cases whose requirement lists were held by five containers / container histories, same outcome", t.get("requirement_lists_decided_alike_by_five_containers"), tier.n(1000, 20_000));
     ctx.gate("request bodies (incl. non-UTF-8 form bodies) validated alike whoever else holds the buffer", t.get("bodies_validated_alike_in_four_kinds_of_buffer"), tier.n(600, 10_000));
+    ctx.gate("64 KiB bodies written in place into the buffer the previous validation handed back, same outcome as alone", t.get("bodies_validated_in_a_reused_buffer_agree"), tier.n(6, 24));
     ctx.gate("64 KiB bodies of one length, each in a fresh buffer, accepted whatever was validated before", t.get("large_bodies_of_one_length_accepted_in_both_orders"), tier.n(8, 32));
     ctx.gate("log records produced during the pass with a trace-level logger (outcomes unchanged)", t.get("log_records_during_logging_pass"), tier.n(2000, 20_000));
     ctx.gate("cold-start processes run", t.get("cold_start_processes"), n_cold);
@@ -822,7 +836,7 @@ pub fn run(tier: Tier) -> i32 {
     }
     let rep = Report {
         level: "exploration",
-        rule: "Outcome comparator: a mixed corpus (accepted, 1–4 defects, hostile noise; both carriers, all options; services with signed-header requirements in every container; several unsigned headers under one required prefix; a distinctive identity and session per case; sibling cases that put the *same* wire request under another option set, clock or provider answer) is validated single-threaded to obtain reference digests (Ok/error kind, code, status + message + returned parts/body/principal/session + provider event log; the one thing left out is *which* of several unsigned prefixed headers a refusal message names); the same cases are then re-validated (i) twice in shuffled order, (i') with a trace-level logger installed and capturing, (i'') three at a time, each suspended at its key provider and polled in turn on one thread or finished by another thread, (i‴) in runs of 40 served by one long-lived provider object that arrives with 1–3 slots of readiness left over (a verifier that skipped the poll_ready handshake would be served first and refused later), (i⁗) for requests whose timestamp sits on a bound of the window, with a provider that takes 1.1 s of real time to answer, (i⁗′) with the same requirement lists held by five kinds of container, one of them used for a validation and then edited down with remove_*, (i⁗‴) with the body in buffers of four kinds of ownership (unique `Bytes`, `Vec<u8>`, a `Bytes` the caller keeps a clone of, a window into a larger buffer), also for form bodies in other charsets with bytes ≥ 0x80, (i⁗⁗) as a sequence of 64 KiB bodies of one length in freshly allocated buffers, forwards and backwards, (ii) from 2/4/8/16 threads released by a barrier, each in its own permutation, on a 24-case hot set (many rounds) and on the full corpus, (iii) in fresh processes whose *first* validations happen on 16 threads at once (lazy statics and regex pools initialised under contention; also with every thread's first validation of one class — unparsable timestamp, runs of slashes, unknown charset — so that the statics used only there are contended too), (iv) in fresh processes sequentially (different HashMap seeds), meeting the cases in forward, reversed or shuffled order, every other one with a logger at Trace; thorough adds (v) the thread workload under ThreadSanitizer (-Zbuild-std) and under Miri with several scheduler seeds. Interleaving evidence is measured: global start/end sequence numbers give max in flight and overlapping first-call pairs. Distinct = distinct (case, mode) comparisons that agreed.".into(),
+        rule: "Outcome comparator: a mixed corpus (accepted, 1–4 defects, hostile noise; both carriers, all options; services with signed-header requirements in every container; several unsigned headers under one required prefix; a distinctive identity and session per case; sibling cases that put the *same* wire request under another option set, clock or provider answer) is validated single-threaded to obtain reference digests (Ok/error kind, code, status + message + returned parts/body/principal/session + provider event log; the one thing left out is *which* of several unsigned prefixed headers a refusal message names); the same cases are then re-validated (i) twice in shuffled order, (i') with a trace-level logger installed and capturing, (i'') three at a time, each suspended at its key provider and polled in turn on one thread or finished by another thread, (i‴) in runs of 40 served by one long-lived provider object that arrives with 1–3 slots of readiness left over (a verifier that skipped the poll_ready handshake would be served first and refused later), (i⁗) for requests whose timestamp sits on a bound of the window, with a provider that takes 1.1 s of real time to answer, (i⁗′) with the same requirement lists held by five kinds of container, one of them used for a validation and then edited down with remove_*, (i⁗‴) with the body in buffers of four kinds of ownership (unique `Bytes`, `Vec<u8>`, a `Bytes` the caller keeps a clone of, a window into a larger buffer), also for form bodies in other charsets with bytes ≥ 0x80, (i⁗⁗) as a sequence of 64 KiB bodies of one length in freshly allocated buffers, forwards and backwards, and written in place into the buffer the previous validation handed back, (ii) from 2/4/8/16 threads released by a barrier, each in its own permutation, on a 24-case hot set (many rounds) and on the full corpus, (iii) in fresh processes whose *first* validations happen on 16 threads at once (lazy statics and regex pools initialised under contention; also with every thread's first validation of one class — unparsable timestamp, runs of slashes, unknown charset — so that the statics used only there are contended too), (iv) in fresh processes sequentially (different HashMap seeds), meeting the cases in forward, reversed or shuffled order, every other one with a logger at Trace; thorough adds (v) the thread workload under ThreadSanitizer (-Zbuild-std) and under Miri with several scheduler seeds. Interleaving evidence is measured: global start/end sequence numbers give max in flight and overlapping first-call pairs. Distinct = distinct (case, mode) comparisons that agreed.".into(),
         assumptions: vec!["interleavings are sampled, not enumerated; no delay can be injected inside lazy_static/regex without patching dependencies".into()],
         extra: J::obj().set("calibrated_vectors", J::i(pre.unwrap_or(0) as i64)).set("sanitizers", san),
     };
